@@ -52,6 +52,10 @@ pub struct ChanCfg {
     /// enough to restore it
     #[serde(default)]
     pub backup: bool,
+    /// default policy with a filter that demotes the tag families no rule of C01-C03 reports under
+    /// (sweep, htlc, routing, invoice, funding, chain) and carries decoy rules for the kept ones
+    #[serde(default)]
+    pub filtered: bool,
 }
 
 #[derive(Clone, Copy, Debug, PartialEq, Eq, Hash, PartialOrd, Ord, Serialize, Deserialize)]
@@ -418,7 +422,7 @@ impl Model for ChanModel {
             self.cfg.k,
             self.cfg.side,
             if self.cfg.cloud { ",cloud-store" } else { "" }
-        ) + if self.cfg.onchain { ",on-chain validator" } else { "" } + if self.cfg.backup { ",backup persister" } else { "" }
+        ) + if self.cfg.onchain { ",on-chain validator" } else { "" } + if self.cfg.backup { ",backup persister" } else { "" } + if self.cfg.filtered { ",policy filter on unrelated tags" } else { "" }
     }
 
     fn init(&self) -> ChanState {
@@ -427,6 +431,11 @@ impl Model for ChanModel {
         cfg.cloud = self.cfg.cloud;
         cfg.onchain = self.cfg.onchain;
         cfg.backup = self.cfg.backup;
+        if self.cfg.filtered {
+            cfg.policy = Some(crate::txbase::policy_with(|p| {
+                p.filter = crate::txbase::unrelated_filter(&["policy-commitment", "policy-revoke", "policy-channel", "policy-mutual", "policy-onchain"]);
+            }));
+        }
         if self.cfg.onchain {
             cfg.oracle_pubkeys = vec![crate::chain::oracle_pub(0)];
         }
@@ -1078,37 +1087,41 @@ pub fn configs(tier: Tier, side: Side, monitors: bool) -> Vec<ChanCfg> {
     let mut v = vec![];
     match (tier, side) {
         (Tier::Quick, Side::Holder) => {
-            v.push(ChanCfg { pv: 6, anchors: false, outbound: true, k: 2, side, core_letters: true, phase1: false, monitors, cloud: false, onchain: false, backup: false });
-            v.push(ChanCfg { pv: 5, anchors: true, outbound: true, k: 2, side, core_letters: false, phase1: true, monitors, cloud: false, onchain: false, backup: false });
-            v.push(ChanCfg { pv: 4, anchors: false, outbound: true, k: 2, side, core_letters: false, phase1: false, monitors, cloud: false, onchain: false, backup: false });
+            v.push(ChanCfg { pv: 6, anchors: false, outbound: true, k: 2, side, core_letters: true, phase1: false, monitors, cloud: false, onchain: false, backup: false, filtered: false });
+            v.push(ChanCfg { pv: 5, anchors: true, outbound: true, k: 2, side, core_letters: false, phase1: true, monitors, cloud: false, onchain: false, backup: false, filtered: false });
+            v.push(ChanCfg { pv: 4, anchors: false, outbound: true, k: 2, side, core_letters: false, phase1: false, monitors, cloud: false, onchain: false, backup: false, filtered: false });
             if !monitors {
-                v.push(ChanCfg { pv: 6, anchors: false, outbound: true, k: 2, side, core_letters: true, phase1: false, monitors, cloud: false, onchain: true, backup: false });
+                v.push(ChanCfg { pv: 6, anchors: false, outbound: true, k: 2, side, core_letters: true, phase1: false, monitors, cloud: false, onchain: true, backup: false, filtered: false });
+                v.push(ChanCfg { pv: 6, anchors: false, outbound: true, k: 2, side, core_letters: true, phase1: true, monitors, cloud: false, onchain: false, backup: false, filtered: true });
             }
         }
         (Tier::Thorough, Side::Holder) => {
             for pv in [4u32, 5, 6] {
                 for anchors in [false, true] {
-                    v.push(ChanCfg { pv, anchors, outbound: true, k: 3, side, core_letters: true, phase1: true, monitors, cloud: false, onchain: false, backup: false });
+                    v.push(ChanCfg { pv, anchors, outbound: true, k: 3, side, core_letters: true, phase1: true, monitors, cloud: false, onchain: false, backup: false, filtered: false });
                 }
             }
-            v.push(ChanCfg { pv: 6, anchors: false, outbound: false, k: 3, side, core_letters: true, phase1: true, monitors, cloud: false, onchain: false, backup: false });
-            v.push(ChanCfg { pv: 6, anchors: false, outbound: true, k: 3, side, core_letters: true, phase1: true, monitors, cloud: false, onchain: true, backup: false });
-            v.push(ChanCfg { pv: 5, anchors: true, outbound: true, k: 3, side, core_letters: true, phase1: true, monitors, cloud: false, onchain: true, backup: false });
+            v.push(ChanCfg { pv: 6, anchors: false, outbound: false, k: 3, side, core_letters: true, phase1: true, monitors, cloud: false, onchain: false, backup: false, filtered: false });
+            v.push(ChanCfg { pv: 6, anchors: false, outbound: true, k: 3, side, core_letters: true, phase1: true, monitors, cloud: false, onchain: true, backup: false, filtered: false });
+            v.push(ChanCfg { pv: 5, anchors: true, outbound: true, k: 3, side, core_letters: true, phase1: true, monitors, cloud: false, onchain: true, backup: false, filtered: false });
         }
         (Tier::Quick, Side::Cp) => {
-            v.push(ChanCfg { pv: 6, anchors: false, outbound: true, k: 3, side, core_letters: false, phase1: false, monitors, cloud: false, onchain: false, backup: false });
+            v.push(ChanCfg { pv: 6, anchors: false, outbound: true, k: 3, side, core_letters: false, phase1: false, monitors, cloud: false, onchain: false, backup: false, filtered: false });
+            if !monitors {
+                v.push(ChanCfg { pv: 6, anchors: false, outbound: true, k: 2, side, core_letters: false, phase1: true, monitors, cloud: false, onchain: false, backup: false, filtered: true });
+            }
         }
         (Tier::Thorough, Side::Cp) => {
-            v.push(ChanCfg { pv: 6, anchors: false, outbound: true, k: 4, side, core_letters: false, phase1: true, monitors, cloud: false, onchain: false, backup: false });
-            v.push(ChanCfg { pv: 6, anchors: true, outbound: true, k: 3, side, core_letters: false, phase1: true, monitors, cloud: false, onchain: false, backup: false });
+            v.push(ChanCfg { pv: 6, anchors: false, outbound: true, k: 4, side, core_letters: false, phase1: true, monitors, cloud: false, onchain: false, backup: false, filtered: false });
+            v.push(ChanCfg { pv: 6, anchors: true, outbound: true, k: 3, side, core_letters: false, phase1: true, monitors, cloud: false, onchain: false, backup: false, filtered: false });
         }
     }
     if monitors {
         // the same histories over the transactional store (C10 / C11 clauses about it)
         let k = if side == Side::Cp { 3 } else { 2 };
-        v.push(ChanCfg { pv: 6, anchors: false, outbound: true, k, side, core_letters: side == Side::Holder, phase1: tier == Tier::Thorough, monitors, cloud: true, onchain: false, backup: false });
+        v.push(ChanCfg { pv: 6, anchors: false, outbound: true, k, side, core_letters: side == Side::Holder, phase1: tier == Tier::Thorough, monitors, cloud: true, onchain: false, backup: false, filtered: false });
         // ... and through the composite main + backup persister
-        v.push(ChanCfg { pv: 6, anchors: false, outbound: true, k, side, core_letters: false, phase1: false, monitors, cloud: false, onchain: false, backup: true });
+        v.push(ChanCfg { pv: 6, anchors: false, outbound: true, k, side, core_letters: false, phase1: false, monitors, cloud: false, onchain: false, backup: true, filtered: false });
     }
     v
 }
@@ -1156,6 +1169,7 @@ pub fn replay_ops(v: &Value) -> Vec<Vio> {
         cloud: false,
         onchain: false,
         backup: false,
+        filtered: false,
     };
     let ops: Vec<Op> = serde_json::from_value(v["ops"].clone()).unwrap();
     let m = ChanModel { cfg };
